@@ -67,7 +67,7 @@ def pointee(t):
 
 class Fn:
     # functions that report and exit: the run ends with this (negative) code
-    NORETURN = {"temp_read": -2, "perm_partialline": -3, "straynewline": -4, "temp_nomem": -5, "resources": -6, "badproto": -7}
+    NORETURN = {"temp_read": -2, "perm_partialline": -3, "straynewline": -4, "temp_nomem": -5, "resources": -6, "badproto": -7, "die_nomem": -5}
     def __init__(self, node, alias, known, chk=False):
         self.node = node; self.name = alias; self.known = known; self.chk = chk
         self.structs = []       # names of pointer-to-struct parameters (their fields become variables/arrays on first use)
@@ -102,6 +102,11 @@ class Fn:
             self.vtype[name] = t; self.vars.append(name)
         elif re.match(r".*\[\d*\]$", strip_quals(t)):
             self.vtype[name] = t; self.arrays.append(name); self.base[name] = name
+        elif not param and strip_quals(t).startswith("struct ") and not is_ptr(t):
+            # a local structure: its fields become variables/arrays on first use (integers 0, sized arrays zero-filled - the C
+            # object is uninitialised, so a proof about the translation covers the run in which it happened to hold zeros;
+            # functions that read such a field before writing it are outside what the translation says)
+            self.vtype[name] = t; self.structs.append(name); self.lstructs = getattr(self, "lstructs", []) + [name]
         else:
             raise Unsupported("variable %s of type %s" % (name, t))
     def collect_locals(self, n):
@@ -532,6 +537,23 @@ class Fn:
             s2 = self.fresh()
             return l2 + ["let %s := set_v_%s__len (set_a_%s__s %s (firstn (Z.to_nat (v_%s__len %s)) (a_%s__s %s) ++ [%s])) (wrapu 32 (v_%s__len %s + 1)) in"
                          % (s2, sa, sa, s1, sa, s1, sa, s1, b, sa, s1)], "(1)", s2
+        if nm == "ipme_is":
+            # oracle: is this address one of the host's own?  The host's addresses are the run parameter g_ipme_ (four elements per
+            # address); ipme.c itself (interface enumeration) is outside the translation
+            aa = args[0]
+            while aa.get("kind") in ("ImplicitCastExpr", "ParenExpr"): aa = aa["inner"][0]
+            if aa.get("kind") == "UnaryOperator" and aa.get("opcode") == "&": aa = aa["inner"][0]
+            if aa.get("kind") != "DeclRefExpr" or aa["referencedDecl"]["name"] not in self.structs: raise Unsupported("ipme_is of something that is not a structure")
+            fld = aa["referencedDecl"]["name"] + "__d"
+            if fld not in self.vtype: self.vtype[fld] = "unsigned char[4]"; self.arrays.append(fld); self.base[fld] = fld
+            ensure("ipme", True)
+            return [], "(b2z (ipme_mem (a_%s %s) (a_ipme %s)))" % (fld, s, s), s
+        if nm == "stralloc_cat":
+            sa = io_struct(args[0]); sb = io_struct(args[1])
+            for x in (sa, sb): ensure(x + "__s", True); ensure(x + "__len", False)
+            s2 = self.fresh()
+            return ["let %s := set_v_%s__len (set_a_%s__s %s (firstn (Z.to_nat (v_%s__len %s)) (a_%s__s %s) ++ firstn (Z.to_nat (v_%s__len %s)) (a_%s__s %s))) (wrapu 32 (v_%s__len %s + v_%s__len %s)) in"
+                    % (s2, sa, sa, s, sa, s, sa, s, sb, s, sb, s, sa, s, sb, s)], "(1)", s2
         if nm == "substdio_flush":
             io_struct(args[0]); return [], "(0)", s
         if nm == "qmail_fail":
@@ -569,6 +591,10 @@ class Fn:
             if p["name"] in g.structs:
                 aa = a
                 while aa.get("kind") in ("ImplicitCastExpr", "ParenExpr"): aa = aa["inner"][0]
+                if aa.get("kind") == "UnaryOperator" and aa.get("opcode") == "&":
+                    aa = aa["inner"][0]
+                    while aa.get("kind") == "ParenExpr": aa = aa["inner"][0]
+                    if aa.get("kind") != "DeclRefExpr" or aa["referencedDecl"]["name"] not in getattr(self, "lstructs", []): raise Unsupported("address of something that is not a local structure as a struct argument")
                 if aa.get("kind") != "DeclRefExpr" or aa["referencedDecl"]["name"] not in self.structs: raise Unsupported("struct argument that is not a struct parameter")
                 mine = aa["referencedDecl"]["name"]
                 for f in g.arrays + g.vars:
